@@ -18,6 +18,7 @@ import (
 	"github.com/rs/zerolog"
 
 	"verif/sim"
+	"verif/simtest/c07"
 	"verif/simrt"
 	. "verif/simtest/env"
 )
@@ -645,7 +646,11 @@ func c18Oracle(pl *c18Plan, chain *Chain, lookups []*c18LookupRec, deliveries []
 }
 
 func init() {
-	sim.Register(&sim.Scenario{Property: "C18", Name: "cache", Gen: c18Gen, Exec: c18Exec})
+	// the strategies that consult the cache: an answer ranked by another slot than its block's
+	for _, sc := range c07.SlotScenarios("C18") {
+		sim.Register(sc)
+	}
+	sim.Register(&sim.Scenario{Property: "C18", Name: "cache", Gen: c18Gen, Exec: c18Exec, Weight: 3})
 	sim.Register(&sim.Scenario{Property: "C18PROBE", Name: "odd-headers", Exec: c18Exec, Gen: func(p *simrt.Tape) any {
 		pl := c18Gen(p).(*c18Plan)
 		pl.OddHeaders = map[int]int{}
